@@ -36,6 +36,17 @@ def tagged(kind, tag, time):
         return {'type': 'end_of_track', 'time': time}
     if kind == 'name':
         return {'type': 'track_name', 'name': f'n{tag}', 'time': time}
+    if kind in ('marker', 'lyrics', 'cue_marker', 'copyright', 'instrument_name', 'device_name'):
+        attr = 'name' if kind.endswith('_name') else 'text'
+        return {'type': kind, attr: f'{kind[0]}{tag}', 'time': time}
+    if kind == 'seqnum':
+        return {'type': 'sequence_number', 'number': tag % 65536, 'time': time}
+    if kind == 'port':
+        return {'type': 'midi_port', 'port': tag % 256, 'time': time}
+    if kind == 'pitch':
+        return {'type': 'pitchwheel', 'channel': tag % 16, 'pitch': (tag * 37) % 16384 - 8192, 'time': time}
+    if kind == 'songsel':
+        return {'type': 'song_select', 'song': tag % 128, 'time': time}
     raise KeyError(kind)
 
 
@@ -144,7 +155,8 @@ def cases(draw):
         tr = []
         for _ in range(n):
             kind = draw(st.sampled_from(['note_on', 'note_on', 'cc', 'text', 'tempo', 'tempo', 'unknown', 'sysex', 'eot',
-                                         'name']))
+                                         'name', 'marker', 'lyrics', 'cue_marker', 'copyright', 'instrument_name',
+                                         'device_name', 'seqnum', 'port', 'pitch', 'songsel']))
             tr.append(tagged(kind, tag, draw(tm)))
             tag += 1
         tail = draw(st.sampled_from(['none', 'eot0', 'eot0', 'eot-delta', 'two']))
